@@ -1,13 +1,13 @@
 SPECIFICATION InitOnly
 CONSTANTS
   Configs <- RealTextConfigs
-  Ns = {1, 2}
-  NestSets <- NestThorough
+  Ns = {1, 2, 3}
+  NestSets <- NestLive
   Bounds <- BoundsLive
   Pools = {FALSE, TRUE}
   Fds = {FALSE}
-  ScriptLen = 3
-  LongScripts = TRUE
+  ScriptLen = 0
+  LongScripts = FALSE
   FdStop = TRUE
   SkipAll = FALSE
 INVARIANT ExportCfg
